@@ -18,6 +18,10 @@ Proof.
   apply in_map, in_seq. lia.
 Qed.
 
+Lemma forallb_zrange (P : Z -> bool) n :
+  forallb P (zrange n) = true -> forall v, 0 <= v < Z.of_nat n -> P v = true.
+Proof. intros H v Hv. eapply forallb_forall in H; [exact H | apply in_zrange; exact Hv]. Qed.
+
 (* finite case analysis on a hypothesis H : In v <closed list> *)
 Ltac by_cases H tac :=
   cbv in H; repeat (destruct H as [H | H]; [subst; tac | ]); try contradiction.
@@ -203,11 +207,34 @@ Lemma utf8_decode1_app x a b :
   utf8_decode1 x (a ++ b) = (fst (utf8_decode1 x a), snd (utf8_decode1 x a) ++ b).
 Proof.
   intros Hb. unfold utf8_decode1; cbv zeta.
-  destruct (x =? 224) eqn:X1; destruct (x =? 237) eqn:X2;
-  destruct (x =? 240) eqn:X3; destruct (x =? 244) eqn:X4; try (exfalso; lia);
-  destruct a as [|a1 [|a2 [|a3 a]]]; destruct b as [|c [|c2 [|c3 b]]]; simpl app; simpl in Hb;
-  repeat match goal with |- context [if ?c then _ else _] => let E := fresh "E" in destruct c eqn:E end;
-  simpl; rewrite ?app_nil_r; try reflexivity; exfalso; unfold utf8_is_cont, utf8_in in *; lia.
+  destruct (utf8_in 0 127 x); [reflexivity|].
+  destruct (utf8_in 194 223 x).
+  { destruct a as [|a1 a]; [|cbn [app]; destruct (utf8_is_cont a1); reflexivity].
+    destruct b as [|c b]; [reflexivity|]. cbn [app utf8_clean_start] in *. rewrite Hb. reflexivity. }
+  destruct (utf8_in 224 239 x).
+  { set (lo := if x =? 224 then 160 else 128). set (hi := if x =? 237 then 159 else 191).
+    assert (Hr : forall c, utf8_is_cont c = false -> utf8_in lo hi c = false).
+    { intros c Hc. subst lo hi. unfold utf8_is_cont, utf8_in in *.
+      destruct (x =? 224); destruct (x =? 237); lia. }
+    destruct a as [|a1 [|a2 a]]; cbn [app].
+    - destruct b as [|c [|c2 b]]; try reflexivity. cbn [utf8_clean_start] in Hb.
+      rewrite (Hr c Hb). reflexivity.
+    - destruct b as [|c b]; [reflexivity|]. cbn [app utf8_clean_start] in *.
+      rewrite Hb, andb_false_r. reflexivity.
+    - destruct (utf8_in lo hi a1 && utf8_is_cont a2); reflexivity. }
+  destruct (utf8_in 240 244 x); [|reflexivity].
+  set (lo := if x =? 240 then 144 else 128). set (hi := if x =? 244 then 143 else 191).
+  assert (Hr : forall c, utf8_is_cont c = false -> utf8_in lo hi c = false).
+  { intros c Hc. subst lo hi. unfold utf8_is_cont, utf8_in in *.
+    destruct (x =? 240); destruct (x =? 244); lia. }
+  destruct a as [|a1 [|a2 [|a3 a]]]; cbn [app].
+  - destruct b as [|c [|c2 [|c3 b]]]; try reflexivity. cbn [utf8_clean_start] in Hb.
+    rewrite (Hr c Hb). reflexivity.
+  - destruct b as [|c [|c2 b]]; try reflexivity. cbn [app utf8_clean_start] in *.
+    rewrite Hb, andb_false_r. reflexivity.
+  - destruct b as [|c b]; [reflexivity|]. cbn [app utf8_clean_start] in *.
+    rewrite Hb, andb_false_r. reflexivity.
+  - destruct (utf8_in lo hi a1 && utf8_is_cont a2 && utf8_is_cont a3); reflexivity.
 Qed.
 
 (* decoding distributes over ++ when the right part starts a new sequence *)
@@ -302,6 +329,20 @@ Section Unspell.
   Qed.
 End Unspell.
 
+(* boolean equality of table entries *)
+Definition entry_eqb (a b : option (Z * list bool)) : bool :=
+  match a, b with
+  | Some (v, m), Some (v', m') => (v =? v') && bools_eqb m m'
+  | None, None => true
+  | _, _ => false
+  end.
+
+Lemma entry_eqb_eq a b : entry_eqb a b = true -> a = b.
+Proof.
+  destruct a as [[v m]|], b as [[v' m']|]; simpl; intros H; try discriminate; [|reflexivity].
+  apply andb_true_iff in H as [H1 H2]. apply Z.eqb_eq in H1. apply bools_eqb_eq in H2. congruence.
+Qed.
+
 (* boolean duplicate check *)
 Fixpoint nodupb {A} (eqb : A -> A -> bool) (l : list A) : bool :=
   match l with
@@ -327,8 +368,9 @@ Qed.
 Lemma c39_table_is_standard : forall r, c39_lookup r = c39_spec_entry r.
 Proof.
   intros r. destruct (Z_le_gt_dec 0 r) as [H0|H0]; [destruct (Z_le_gt_dec r 127) as [H1|H1]|].
-  - assert (In r (zrange 128)) as H by (apply in_zrange; simpl; lia).
-    by_cases H ltac:(vm_compute; reflexivity).
+  - apply entry_eqb_eq.
+    apply (forallb_zrange (fun r => entry_eqb (c39_lookup r) (c39_spec_entry r)) 128);
+      [vm_compute; reflexivity | simpl; lia].
   - unfold c39_lookup, c39_spec_entry.
     rewrite (map_get_none_outside 0 127), (char_index_none_outside 0 127);
       [| reflexivity | lia | reflexivity | lia].
